@@ -182,6 +182,11 @@ func cmdRun(args []string) int {
 			if mp, ok := params["max_paths"]; ok {
 				ex.MaxPaths = mp
 			}
+			for _, k := range known {
+				if k.Kind == "finding" && k.Property == *prop && strings.HasPrefix(k.Sig, h.Fn+"/") {
+					ex.StopViolations = 200 // keep looking past a known finding
+				}
+			}
 			res = ex.Run()
 		}
 		results = append(results, res)
@@ -464,7 +469,7 @@ func writeEvidence(vd, prop, tier string, seed int, spec *PropertySpec, results 
 			"harness": r.Harness, "params": r.Params, "paths": r.Paths, "path_statuses": r.Statuses,
 			"assertions_checked": r.Asserts, "assertions_trivially_true": r.Trivial, "assertions_discharged_unsat": r.Discharged,
 			"solver_queries": r.Queries, "solver_time_s": r.SolveTime.Seconds(), "wall_s": r.Wall.Seconds(),
-			"violations_found": len(r.Violations), "ssa_instructions_executed": r.Steps,
+			"violations_found": len(r.Violations), "ssa_instructions_executed": r.Steps, "max_instructions_on_one_path": r.MaxStepsPath,
 		})
 	}
 	var fl []string
